@@ -4177,8 +4177,9 @@ def _parse_simple_lines(
                             else:
                                 if arg_value is not None and arg_value in current:
                                     current.remove(arg_value)
-                                elif arg_value is None and current:
-                                    current.pop(0)
+                                else:
+                                    # which element goes is only known at run time
+                                    vars[owner_name] = _ExprStr(owner_name)
                         else:
                             vars[owner_name] = _ExprStr(owner_name)
                 if _expr_has_name(expr_node):
